@@ -78,6 +78,24 @@ def stmt_failure(zero, a, b, idx_nm, r, fy, fx):
         amb = [k for k in nz if min(abs(c0[k][0] - r), abs(c0[k][1] - r), abs(c0[k][0] - (fy - r)), abs(c0[k][1] - (fx - r))) < eps]
         if not amb and not np.array_equal(cf, c0[want]):
             return 'Match.calc_coords(drop_zero=True, frame_shape) returns the wrong peaks'
+    # a Match that was inspected before another lattice is put on it (derive / optimise): its calculated positions are those of ITS lattice
+    ms = grm.Match(grm.CorrelationResult(centers=coords + 0.25), selector=None, zero=zero, a=a, b=b, indices=flat)
+    _ = (ms.error, ms.calculated_refineds.copy())
+    z2, a2, b2 = zero + np.array([1.5, -0.5]), a * 1.01, b + np.array([0.25, 0.0])
+    for nm, md in (('derive(zero=, a=, b=)', ms.derive(zero=z2, a=a2, b=b2)),):
+        want2 = z2 + flat[:, 0:1] * a2 + flat[:, 1:2] * b2
+        if np.abs(np.asarray(md.calculated_refineds) - want2).max() > 1e-9 * sc:
+            return '%s of a Match whose error / calculated positions had been read before: calculated_refineds are not zero + i a + j b of the new lattice (max deviation %.4g)' % (
+                nm, np.abs(np.asarray(md.calculated_refineds) - want2).max())
+        back2 = grm.get_indices(np.asarray(md.calculated_refineds), md.zero, md.a, md.b)
+        if np.abs(back2 - flat).max() > 1e-9 * cond * max(1.0, np.abs(flat).max()) * sc:
+            return '%s of a Match that had been inspected before: get_indices(calculated_refineds) != indices' % nm
+    if len(flat) >= 3 and np.linalg.matrix_rank(np.hstack([np.ones((len(flat), 1)), flat])) == 3:
+        for nm in ('optimize', 'weighted_optimize'):
+            mo = getattr(ms, nm)()
+            want3 = mo.zero + flat[:, 0:1] * mo.a + flat[:, 1:2] * mo.b
+            if np.abs(np.asarray(mo.calculated_refineds) - want3).max() > 1e-9 * sc:
+                return '%s() of a Match that had been inspected before: calculated_refineds are not zero + i a + j b of the returned lattice' % nm
     # polar <-> cartesian (sampled only: arctan2 / sin / cos are not modelled)
     pol = bu.make_polar(np.array([a, b]))
     if np.abs(bu.make_cartesian(pol) - np.array([a, b])).max() > 1e-9 * sc:
